@@ -763,6 +763,20 @@ class AddressCommand(TestCommand):
         {"name": "key-list", "type": ["string", "stringlist"], "required": True},
     ]
 
+    def args_as_tuple(self):
+        """Return arguments as a list."""
+        result = ("address", self.arguments["match-type"])
+        for name in ("header-list", "key-list"):
+            value = self.arguments[name]
+            if isinstance(value, list):
+                # FIXME
+                value = "[{}]".format(",".join('"{}"'.format(item) for item in value))
+            if value.startswith("["):
+                result += (tools.to_list(value),)
+            else:
+                result += (value.strip('"'),)
+        return result
+
 
 class AllofCommand(TestCommand):
     accept_children = True
